@@ -344,7 +344,7 @@ PROPS["C20"] = _tx("C20", ["C20_receiver_progress_invariant", "C20_receiver_prog
     "so far, monotone, and with C07 never beyond the file size). Lock-step correspondence plus oracles recomputing both "
     "figures independently from the observed PDUs.")
 PROPS["C07"] = _tx("C07", ["C07_initial", "C07_every_step", "C07_nak_split_wellformed", "C07_file_data_correct",
-                           "C07_eof_truthful", "C07_first_pass_covers"], ["send"],
+                           "C07_eof_truthful", "C07_first_pass_covers", "C07_headers_initial", "C07_headers_every_step"], ["send"],
     "Proof on the send-transaction model, for all file contents, segment sizes > 0, and operation sequences (NAKs of any "
     "shape, at any time): every file data PDU emitted carries exactly the file's bytes at its offset, is non-empty, at most "
     "one segment long and inside the file; NAK requests are cut to the file and to the segment size; EOF carries the "
@@ -354,7 +354,9 @@ PROPS["C07"] = _tx("C07", ["C07_initial", "C07_every_step", "C07_nak_split_wellf
     "re-checks every emitted PDU (bytes, offsets, sizes, names, checksum, header ids/mode/direction, length field = "
     "encoded payload length).",
     " Not stated as theorems (exercised by the lock-step stream only): 'the first pass sends each byte once, in order' "
-    "(coverage before the EOF IS a theorem; exactly-once and order are not) and "
+    "(coverage before the EOF IS a theorem; exactly-once and order are not). Direction, destination entity and "
+    "length field of every emitted PDU ARE theorems (C07_headers_*: o_len = the model's payload_len formula, which is compared with "
+    "the real encoded_len on every emitted PDU); the transaction's id fields (source entity, sequence number) are not part of the model's PDU record: '"
     "'every emitted PDU carries the transaction's ids / a length field equal to its payload' (the model computes the length "
     "with its own payload_len formula, compared with the real encoded_len on every emitted PDU).")
 
@@ -450,7 +452,8 @@ PROPS["C11"] = {
     "props_files": ["C11"],
     "theorems": ["C11_put_ids_distinct", "C11_put_counter", "C11_forward_frame", "C11_stray_to_sender_discarded",
                  "C11_no_transport_discarded", "C11_unknown_to_receiver_spawns", "C11_command_frame",
-                 "C11_cleanup_only_removes"],
+                 "C11_cleanup_only_removes", "C11_receiver_addresses_only_its_peer", "C11_receiver_addresses_initial",
+                 "C11_sender_addresses_only_its_peer"],
     "components": ["daemon"],
     "rule": ("cases = scripts against TWO real Daemons (entities 1 and 2; entity 3 has no transport anywhere) whose three handlers "
              "(forward_pdu, process_primitive, cleanup_transactions) are called one at a time through cfg(cfdp_verif) hooks on "
@@ -476,7 +479,9 @@ PROPS["C11"] = {
                    "other registration and the counter untouched; a response for a sender that does not exist and a PDU naming an "
                    "entity without transport change nothing and yield only a logged warning; a ToReceiver PDU with an unknown id "
                    "registers a receive transaction under exactly that id (which ends by its own limits, C03); user commands reach only "
-                   "the transaction they name; cleanup only removes. Event-by-event correspondence with two real daemons plus the "
+                   "the transaction they name; cleanup only removes; on the transaction models: every PDU a receive (send) transaction ever "
+                   "emits is directed to the sender (receiver) side and handed to the transport of its own source (destination) entity, with "
+                   "a truthful length field, and its configuration never changes. Event-by-event correspondence with two real daemons plus the "
                    "property's oracle on them."),
     "level_note": ("Trusted: Coq kernel; extraction (ExtrOcamlBasic); OCaml driver and Rust harness; tokio's paused clock and current-thread "
                    "scheduler. NOT mechanised / outside the model: the behaviour of the transaction tasks (they are the real ones; their "
